@@ -133,6 +133,16 @@ CHECKS = {
        "decide that identical data DOES share storage, nor check_file_range_equal's arithmetic.",
   note="trusted: memcmp / check_file_range_equal compare bytes faithfully",
   technique="static analysis: loop-exit and return classification, typestate and must-precede rules on LLVM IR"),
+ "C02": dict(
+  text="The implementation's own determinism argument as structural rules: K3 worker confinement (everything reachable "
+       "from the worker entry through every compressor's do_block: no I/O slots, no dedup/fragment/table bookkeeping, no "
+       "block-processor/writer/table fields, no global writes, only memory functions and codec libraries); K2 order-"
+       "relevant state written only on the submitting thread; K2 no environment query in the packers' closures except "
+       "the documented ones, CPU count reaches only the worker count; comparators never order by address; both pool "
+       "implementations fill all slots; in-flight copy before submit and fragment re-read cache coherence. Byte equality "
+       "with the serial build and done-list order (a run-time sortedness invariant) are NOT decided.",
+  note="trusted: allow-list of memory/codec functions; three documented environment inputs (each with its reason)",
+  technique="static analysis: effect confinement over the slot-resolved call graph, who-may-write and must-precede rules on LLVM IR"),
 }
 
 NA_DEFAULT = "rules designed in DESIGN.md, not implemented yet (work in progress)"
